@@ -5,3 +5,18 @@ CLAIMS['C16'] = dict(
           'upload task or upload-chain function is propagated with `?` or returned; put/upload_shard have no other caller. These facts hold for every '
           'path, hence every schedule and every failing store call — the quantifier the tests cannot reach. The store\'s own behaviour is not decided.'),
     note='C16 is claimed as a whole modulo: JoinSet::join_next returns None only when every spawned task completed; a task\'s output is its async block\'s value.')
+CLAIMS['C11'] = dict(
+    technique='static analysis: path-sensitive MIR must-pass-through (cut reachability with enumerated bypass edges) + def-use provenance + who-may-call',
+    text=('Decides the first sentence of C11 only: every xorb handed to the store has its own chunk list (x.cas_info) registered in the session shard on every '
+          'path to the upload registration (empty xorbs excepted), put has no other trigger, and after a successful shard upload the shard is exported to the '
+          'cache directory and registered in the cache shard manager before the task succeeds. All-paths facts, so they hold for every file size and for both '
+          'the mid-file and the aggregated route. Not decided: that the later lookup succeeds (value-level parts of C05/C09), so not the numeric "no new bytes" consequence.'),
+    note='Trusted: ShardFileManager::add_cas_block indexes what it is given.')
+CLAIMS['C14'] = dict(
+    technique='static analysis: path-effect conservation (additive-update balance states over the loop DAG) + MIR dominance + def-use provenance',
+    text=('Decides per-path conservation: in the accounting loop of process_chunks every acyclic iteration path satisfies Σtotal_chunks = cursor advance, '
+          'total = deduped + new (chunks and bytes), byte operands belong to their chunk operands, defrag-prevented counters only move with new data; the '
+          'session metrics snapshot that is returned is taken after all upload tasks were joined; merge_in pairs every field with its namesake and is reached on '
+          'every successful path; pointer size provenance. Symbolic per-path identities hold for every input; numeric totals and the truth of a dedup answer\'s '
+          'byte count (C05) are not decided.'),
+    note='Inner loops of the accounting loop must not contain tracked updates (checked; fail-closed).')
